@@ -590,6 +590,16 @@ def cases(max_ops):
                      st.lists(op, min_size=2, max_size=max_ops), st.booleans())
 
 
+def multilink_cases():
+    """two or three datasets with two stored attributes each, one MultiLink with unequal sides between them, then mostly removals"""
+    mk = st.tuples(st.just("link"), st.sampled_from(["multi12", "multi21"]), idx, idx, idx, idx, idx, fn_spec).map(list)
+    later = st.one_of(st.tuples(st.just("rmcomp"), idx, idx), st.tuples(st.just("rmcomp"), idx, idx), st.tuples(st.just("rmcomp"), idx, idx),
+                      st.tuples(st.just("unlink"), idx), st.tuples(st.just("addcomp"), idx, idx), st.tuples(st.just("remove"), idx), mk).map(list)
+    return st.builds(lambda setup, links, ops, coords: {"setup": setup, "ops": [["addcomp", 0, 1], ["addcomp", 1, 2], ["addcomp", 2, 3]] + links + ops, "coords": coords},
+                     st.lists(idx, min_size=2, max_size=3), st.lists(mk, min_size=1, max_size=3), st.lists(later, min_size=1, max_size=6), st.booleans())
+
+
 def checks(tier):
     n, m = {"quick": (2000, 25), "thorough": (20000, 40)}.get(tier, (10, 25))
-    return [Check("link_histories", fn_history, strategy=cases(m), examples=n)]
+    return [Check("link_histories", fn_history, strategy=cases(m), examples=n),
+            Check("multilink_histories", fn_history, strategy=multilink_cases(), examples=max(10, n // 4))]
